@@ -118,6 +118,7 @@ type Cmd struct {
 	T     string `json:"t,omitempty"`
 
 	Key       Item   `json:"key,omitempty"`
+	KeyExtra  Item   `json:"key_extra,omitempty"` // attributes added to the Key map of the request beyond the key schema
 	Item      Item   `json:"item,omitempty"`
 	Upd       Update `json:"upd,omitempty"`
 	Cond      *Expr  `json:"cond,omitempty"`
@@ -171,6 +172,9 @@ func (c *Cmd) String() string {
 	}
 	if c.Key != nil {
 		fmt.Fprintf(&sb, " key=%s", c.Key.Canon())
+	}
+	if c.KeyExtra != nil {
+		fmt.Fprintf(&sb, " key+=%s", c.KeyExtra.Canon())
 	}
 	if c.Item != nil {
 		fmt.Fprintf(&sb, " item=%s", c.Item.Canon())
